@@ -118,6 +118,23 @@ fields of the enumerated / random built cases).  For these, for every second oth
 field and for an eighth of the remaining ones parse -> dump -> parse must be stable: the value shape (list / bare record) of
 every field after the re-parse equals the one after the first parse (parsed cases), and the re-parsed object dumps to
 exactly the text it was parsed from (parsed and built cases; all three text layouts, both build shapes).
+
+Record tokens that together spell a line with a meaning elsewhere in the format (case['wl'] = ['lk', field, class, shape]
+/ ['lk-par']; case['lk'] = [[field, record index, record count, class] ..]): a record line is the record's tokens joined
+by blanks behind the indentation (or behind "Field:").  Every token is an ordinary whitespace-free token, but joined
+they read like an OpenPGP armor line ('-----BEGIN' 'PGP' 'SIGNATURE-----', '-----END PGP SIGNATURE-----', '-----BEGIN
+PGP MESSAGE-----'; in the five-column Files of .changes '-----BEGIN PGP PUBLIC KEY BLOCK-----' and '-----BEGIN PGP SIGNED
+MESSAGE-----' with one more token before / behind it), a field line ('Files:' 'x' 'y', 'Name:' .., the field's own
+name, 'Files' ':' ..), a comment ('#' 'x' 'y'), a line whose first / every / last token is '.', a line starting with '-'
+('-', '-----', '-' '-----BEGIN' ..: dash-escaping) or '+'.  Enumerated: every configuration x class x {parsed text:
+only record on the field line / only record on a continuation line / first, middle, last record on continuation lines
+/ first (= on the field line), middle, last record of the mixed layout; built object: list holding only that record /
+first, middle, last record of a list / the bare record}; the field stands first / in the middle / last among the
+structured fields.  Judgement: the ordinary one, then the generated text (parsed cases) and the dumped text go through
+EVERY input form (str, bytes, lines with / without newline, text file, binary file, cls.iter_paragraphs over str /
+lines / binary file) and - Dsc, Changes, BuildInfo - through the same forms with the document wrapped in the clear-sign
+armor sign() writes; each time exactly one paragraph must come out that exposes all records of all structured fields
+(those behind the look-alike included) and shows every field name that was written.
 """
 import collections
 import collections.abc
@@ -253,6 +270,34 @@ RULE = ('One case = one paragraph of one class (Dsc, Changes, BuildInfo, PdiffIn
         'three layouts) every field is exposed by the parse of the dump in the same value shape - list or bare record - as by '
         'the first parse; (parsed and built cases) the object parsed from the dump, given the same size_field_behavior, dumps '
         'to exactly the text it was parsed from (which implies that a third parse equals the second).  '
+        '(j) RECORD TOKENS THAT TOGETHER SPELL A LINE WITH A MEANING ELSEWHERE IN THE FORMAT: a record line is the record\'s '
+        'tokens joined by blanks behind the indentation of a continuation line (or behind "Field:" on the field line); records '
+        'whose tokens - each a non-empty whitespace-free token - so joined read like (1..3) an OpenPGP armor line: '
+        '"-----BEGIN PGP SIGNATURE-----", "-----END PGP SIGNATURE-----", "-----BEGIN PGP MESSAGE-----" / "-----END PGP '
+        'MESSAGE-----" as three tokens in the three-column fields; in the five-column Files of .changes "-----BEGIN|END PGP '
+        'PUBLIC KEY BLOCK-----" (five tokens), the three-token lines with two ordinary tokens behind or before them, and the '
+        'four tokens of "-----BEGIN PGP SIGNED MESSAGE-----" with one ordinary token behind / before them or with the closing '
+        'dashes as a token of their own; (4) a field line: first token "Files:", "Name:", the field\'s own name, another '
+        'structured / plain field\'s name, "X-Foo:" (each with the colon), "Files:x", or the two tokens "Files" ":"; (5) a '
+        'comment: first token "#", "#x", "##", "#Files:", "#-----BEGIN"; (6) the first / the first two / every / the last token '
+        'is "."; (7) first token "-", "--", "---", "-----", "-x", "-1", "-----BEGIN", or "-" followed by "-----BEGIN" .. (the '
+        'shape dash-escaping gives an armor line); (8) first token "+", "++", "+++", "+x", "+1" (classes 4..8 also in the '
+        'two-column SHA*-Current fields).  Enumerated: every configuration x class x 13 shapes - parsed text with the look-alike '
+        'as the only record on the field line / the only record on a continuation line / the first, a middle, the last of 2..4 '
+        'records on continuation lines / the first (= on the field line), a middle, the last record of the mixed layout; built '
+        'object given a list holding only that record / a list with it as first, middle, last record / the bare record - with '
+        'the structured field rotating (thorough: every structured field the class fits), the field standing first / in the '
+        'middle / last among 1..all structured fields of the paragraph (plain fields around them), the record line written '
+        'with ONE blank between tokens (always for the armor classes, else in two of three cases), input form and dump route '
+        'rotating; plus paragraphs in which 2 or more records of 1..8 fields are look-alikes of random classes (in four of ten '
+        'the first one reads like an armor BEGIN line and the last one like an armor END line).  Each such case is judged the '
+        'ordinary way (records exposed, dump returns, width rule, re-parse, equality protocol, stability) and then the generated '
+        'text (parsed cases) and the dumped text are read through every input form - cls(str), cls(bytes), cls(lines), cls(lines '
+        'without newline), cls(text file), cls(binary file), cls.iter_paragraphs over str / lines / a binary file - and, for '
+        'Dsc / Changes / BuildInfo, wrapped in the clear-sign armor ("-----BEGIN PGP SIGNED MESSAGE-----", Hash header, empty line, '
+        'the document, "-----BEGIN PGP SIGNATURE-----" .. "-----END PGP SIGNATURE-----") as str and in three of the other seven '
+        'forms (rotating): every time exactly one paragraph must come out, with all records of all structured fields - the '
+        'look-alike one and everything behind it - and with every field name that was written.  '
         'A single-dump case is non-trivial when at least one structured field of the class is absent and at least one present '
         'field has >= 2 records; a history is non-trivial when it has >= 2 judged dumps and that condition held at one of them.')
 ASSUMPTIONS = [
@@ -399,6 +444,24 @@ ASSUMPTIONS = [
     'raises is reported (build-assignment-raises/<exception>/bare-record).  dump() of the re-parsed object is the plain dump() -> '
     'str, compared with the first dump whatever route (str / binary fd decoded as UTF-8 / text fd) that took - established equal '
     'on the unchanged tree for all routes, layouts, classes and token alphabets used here',
+    'look-alike lines: the statement quantifies over ALL whitespace-free tokens, so "-----BEGIN", "PGP", "SIGNATURE-----", "Files:", '
+    '"#", ".", "-", "+" are tokens like any other and a record made of them must come back as that record.  What makes this '
+    'decidable without guessing is the layout: a record line always stands behind the one-blank indentation of a continuation line '
+    'or behind "Field:" - never in column 0, where armor lines, field lines and comment lines have their meaning - and the generator '
+    'writes no other indentation.  Established on the unchanged tree BEFORE judging (930 300 probes: every configuration x structured '
+    'field x look-alike spelling x 10 layouts / positions x 3 field orders, with and without final newline, every input form, '
+    'clear-signed or not, and the three dump routes read back the same way): every spelling round-trips - an INDENTED armor '
+    'look-alike is payload, inside and outside a clear-signed document; " Files: x y" is a continuation line; " # x y" is no '
+    'comment; " . 1 x" is a record - and no disagreement was seen.  Only those spellings are generated and judged; nothing is '
+    'demanded for a look-alike in column 0 (cannot be produced by a record) or behind a TAB / several blanks of indentation',
+    'look-alike lines, clear-sign wrapping: the wrapper is the module\'s sign() (armor header line, one Hash header, an empty line, '
+    'the document, an empty line unless the text lacks its final newline, then a signature block with its own BEGIN / END lines); '
+    'record lines are indented, so no dash-escaping applies to them and the document inside is byte for byte the unsigned one.  '
+    'Dsc / Changes / BuildInfo only (the classes documented to accept signed input).  The signature is not verified',
+    'look-alike lines, "nothing lost after such a record": besides the records of every structured field (compare_records over '
+    'the whole table) every field NAME that was written - plain fields included - must be a key of the paragraph read back; the '
+    'values of plain fields are not compared (not this property).  cls.iter_paragraphs over the one-paragraph document must yield '
+    'exactly one paragraph (at most three are pulled)',
     'constructor spellings: "the dump re-parses to the records" is judged twice - with the classic cls(dumped str) like everywhere '
     'else, and with the dumped text handed over through the same source form and call spelling as the original (a mapping of the '
     'same type is made from the dump with the harness\'s splitter or, for the deb822-* types, by the generic Deb822 parser)',
@@ -3354,7 +3417,12 @@ def setup(ctx):
         % (' '.join(CTOR_SRC), ' '.join(CTOR_CALLS), ' '.join(ITER_CALLS[len(CTOR_CALLS):]), CTOR_REPS[ctx.tier],
            ' '.join(CTOR_MAPS), ' '.join(MAP_CALLS), CTOR_MAP_REPS[ctx.tier]),
         'single-record fields: every configuration x structured field x exactly one record x %s, %d case(s) each, judged for '
-        'parse -> dump -> parse stability and the equality protocol' % (' / '.join(ONE_SHAPES), ONE_REPS[ctx.tier])]
+        'parse -> dump -> parse stability and the equality protocol' % (' / '.join(ONE_SHAPES), ONE_REPS[ctx.tier]),
+        'record tokens that together spell a line with a meaning elsewhere in the format: every configuration x look-alike class '
+        '(%s) x shape (%s)%s, %d case(s) each, read back through every input form, bare and clear-signed'
+        % (' '.join(LK_CLASSES), ' '.join('-'.join(x) for x in LK_SHAPES),
+           ' x every structured field the class fits' if ctx.tier != 'quick' else ', the structured field rotating',
+           LK_REPS[ctx.tier])]
 
 
 def cases(ctx):
